@@ -663,6 +663,17 @@ def battery(rng):
                                        L("td"), L("td", [first["ty"], first["name"]]), L("tb", ["def.ax", "c_tb_1"]),
                                        L("td", ["thm.ax", "x_td_td_1"]), L("ta", ["def.ax", "c_tb_1"])],
                         "battery: limits (present, first item, last item, 'start', missing, item of another theory)"))
+    # 7a. items that do NOT parse (axioms about constants that are not visible): as the limit, in front of the limit,
+    #     behind it; an unparsable item is still an item of the file and a valid limit
+    lib = bat_lib(CHAIN)
+    c0 = lib["td"][0]["content"]
+    bad = lambda k: {"ty": "thm.ax", "name": "x_bad_%d" % k, "vars": {}, "prop": "c_nowhere_%d ⟶ c_td_0" % k}  # noqa: E731
+    lib["td"][0]["content"] = c0[:4] + [bad(1)] + c0[4:7] + [bad(2)] + c0[7:] + [bad(3)]
+    lib["tb"][0]["content"] = lib["tb"][0]["content"][:3] + [bad(4)] + lib["tb"][0]["content"][3:]
+    out.append(Scenario("synth", lib, [L("td", ["thm.ax", "x_bad_2"]), L("td", ["thm.ax", "x_bad_1"]), L("td", [c0[5]["ty"], c0[5]["name"]]),
+                                       L("td", ["thm.ax", "x_bad_3"]), L("td"), L("tb", ["thm.ax", "x_bad_4"]), L("tc", "start"),
+                                       L("td", ["thm.ax", "x_bad_2"])],
+                        "battery: items that do not parse used as the limit / in front of the limit / last"))
     # 7b. the SAME limited load repeated around edits of the file: items inserted / deleted / moved in front of the
     #     limit, changes behind it only, the limit item moved, deleted, renamed, and put back
     lib = bat_lib(CHAIN)
@@ -721,6 +732,23 @@ def battery(rng):
                                         U(E("td", 1, later + 3)), U(Ld()), U(L("td")), L("td"), U(E("ta", 1, later + 4)), U(L("td")), L("tb"),
                                         U({"op": "reload"}), U(L("tb")), L("td", "start")],
                         "battery: master and a second user (same theory names, different files): limited loads interleaved with edits"))
+    # a user whose copies of the IMPORTS differ from master's in what the importing theories use, and who has a theory
+    # master lacks: the imports of a user's theory are the user's files
+    mlib = bat_lib(CHAIN)
+    ulib = bat_lib(CHAIN)
+    ulib["ta"] = [ulib["ta"][1], ulib["ta"][0], ulib["ta"][2]]          # u1's ta has c_ta_9 instead of c_ta_0
+    ulib["tb"] = [ulib["tb"][2], ulib["tb"][0], ulib["tb"][1]]          # u1's tb lacks c_tb_1
+    ulib["tu"] = [{"imports": ["tc"], "content": bat_theory("tu", ["ta", "tb", "tc"], 0) + [
+        {"ty": "thm.ax", "name": "x_tu_9", "vars": {}, "prop": "c_ta_9 ⟶ c_tu_0"}]}]
+    both2 = dict(mlib)
+    for n in ulib:
+        both2["u1:" + n] = ulib[n]
+    out.append(Scenario("synth", both2, [U(L("tu")), L("td"), U(L("td")), U(L("tb", ["thm.ax", "x_tb_ta_1"])), L("tb"), U(L("tu", "start")),
+                                         U(E("ta", 1, later + 2)), U(L("tu")), L("tc"), E("ta", 2, later + 3), U(L("tc")), L("tc"),
+                                         U({"op": "reload"}), U(L("tu", ["thm.ax", "x_tu_9"]))],
+                        "battery: a user whose imports differ from master's and who has a theory master lacks"))
+    out.append(Scenario("synth", copy.deepcopy(both2), [L("tc"), U(L("tc")), U(L("tu")), L("td")],
+                        "battery: master first, then the user with different imports"))
     # 8. timestamps without a change of content, load_metadata in between
     lib = bat_lib(DIAMOND)
     out.append(Scenario("synth", lib, [L("te"), T("ta", later), L("te"), T("tc", earlier), L("td"), R, L("te"),
@@ -1575,10 +1603,17 @@ MANIFEST = {
             "import_clash_reported, missing_limit_reported, cycle_reported, changed_file_reread. SEVERAL USERS: the model "
             "(execU/stepU) has a library and cache per user, loads focus on the user's own directory (the code has NO "
             "shadowing of / fall-back to master), module-level load_theory calls go to master; "
-            "user_resolution_spec_partial (a user's load = the specification on that user's files) is proved for worlds "
-            "without lazy imports only, users_isolated_partial for file operations only; the cross-user effects of loads "
-            "through lazy imports are tied by the second-user histories (now compared with the model step by step), not by a "
-            "theorem. FUEL: every theorem admits the outcome 'the model ran out of fuel'; no theorem says that some amount of "
+            "users_isolated: a load for user B -- with the lazily imported modules and the master loads it triggers -- "
+            "and every edit / touch / load_metadata of B's files leave the library and cache of every other user A (A not "
+            "master for loads) exactly as they were; user_resolution_spec (lazy imports included, every user, every focus): whenever the "
+            "cache invariant holds for the library of user u, a normal return of load_theory(n, limit, username=u) carries the "
+            "specification on u's OWN files (a module's load_theory call works on master and never disturbs u's library); "
+            "load_eq_spec_users_partial: for every NON-master user u, after any multi-user history whose operations on u's own "
+            "files satisfy the hypothesis (nothing asked of the other users), a normal return carries the specification on "
+            "u's current files; NOT proved: the same for master when other users are active (master's library is also "
+            "changed by their lazy imports) and the no-spurious-failure direction for several users; the results "
+            "of loads in multi-user histories, including users whose imports differ from master's and theories master lacks, are judged by "
+            "the second-user histories (fresh process, reference loader, model step by step). FUEL: every theorem admits the outcome 'the model ran out of fuel'; no theorem says that some amount of "
             "fuel suffices; every run confirms on its own histories that fuel 400 sufficed. "
             "FAILING-INPUT SEARCH: when the model correspondence breaks on a synthetic history on which no oracle objected, an "
             "amplified history is run with every load judged against its own fresh process. "
